@@ -482,6 +482,23 @@ def check(ctx):
     ctx.note("cache.set_size is not in the property's operation alphabet; since fix 1886c98 the re-sized caches are registered and R5 requires it")
 
 
+    # ---------------- R7: a shared memo is selected by everything its content depends on
+    ctx.rule("C09.R7", "the dictionary shared by the recursion checkers is selected by every parameter of the checker (class and default conversion): a verdict computed under one default conversion is never read under another one, whatever the order of the calls", floor=2)
+    rc_init = model.func("apischema.recursion.RecursiveChecker.__init__")
+    ir = model.func("apischema.recursion.is_recursive")
+    rcache = model.func("apischema.recursion.recursion_cache")
+    init_params_ = [p for p in rc_init.params if p != "self"]
+    for fi, need in ((rc_init, init_params_), (ir, [p for p in ir.params if p in init_params_])):
+        calls = [c for c in ast.walk(fi.node) if isinstance(c, ast.Call) and dotted(c.func) == "recursion_cache"]
+        ctx.require(calls, f"{fi.qualname}: recursion_cache(...) call not found")
+        for c in calls:
+            given = {norm(a) for a in c.args} | {norm(k.value) for k in c.keywords}
+            missing = [p for p in need if p not in given]
+            ctx.check(not missing, "C09.R7", f"{fi.qualname}:recursion_cache", None,
+                      f"`{short(c, 60)}` selects the shared verdicts without `{', '.join(missing)}`, although the traversal depends on it (a default conversion can turn a leaf into its parent): after serialize(Node, x) with the standard conversions, the same call with default_conversion=custom reuses `not recursive` and overflows the stack (RecursionError), whereas a cold start succeeds",
+                      fi, c, detail=f"recursion_cache(<class>, {', '.join(need)})")
+    ctx.check(len(rcache.params) >= 1 + len(init_params_), "C09.R7", f"{rcache.qualname}:key", None, "recursion_cache is keyed by fewer parameters than the checker has", rcache, rcache.node, detail="(checker class, default_conversion)", nontrivial=False)
+
 def stmt_of(fi: FuncInfo, node) -> ast.AST:
     """Smallest statement of fi containing node."""
     best = None
@@ -544,6 +561,7 @@ def fixtures(ctx):
 
 # ---------------------------------------------------------------------------
 def mutants(mb):
+    mb.add_text("recursion-cache-ignores-default-conversion", "apischema/recursion.py", "        self._cache = recursion_cache(self.__class__, default_conversion)\n", "        self._cache = recursion_cache(self.__class__, None)\n", "C09.R7", "RecursiveChecker.__init__")
     mb.add_text("set-size-unregistered", "apischema/cache.py", "        _cached.append(resized)\n", "", "C09.R5", "set_size")
     from ..selftest import find_func, first
     # R1
